@@ -3,6 +3,7 @@
   Property theorems about CM.Model.Stack (the model is tied to /repo by the S-BAG correspondence).
 -/
 import CM.Proofs.FactoryChain
+import CM.Proofs.FactoryNames
 import CM.Proofs.StackLemmas
 import CM.Proofs.BagWfB
 import CM.Proofs.BagTerm
@@ -265,5 +266,34 @@ example : ArgDen exLayer "a" (.inp "a") ∧ ArgDen exLayer "_k" (.node (.constan
   simp only [List.zip_cons_cons, List.zip_nil_right, List.mem_singleton] at hq
   subst hq
   exact ha
+
+/-- **Node level, from the class body: which fields `pipeline >> layer` exposes.**  Exactly (1) the fields the layer defines,
+(2) the names it inherits (`__inherit__` as a list or a bare string, `True`, everything but `__exclude__` - normalised as
+`TransformFactory._after_collect` / `normalize_inherit` do) that the pipeline has, or that the layer consumes itself (then it passes
+its own input through), (3) for a Source the persistent names it reads as inputs, (4) the persistent fields of the pipeline (the key,
+the meta fields of a Source) that the layer neither defines nor passes through itself.  Any other earlier field is gone - for every
+well-formed pipeline container and every layer description the factory accepts. -/
+theorem node_layer_exposes {l b c : Bag} {r : RawLayer} (hl : l.WF) (hb : r.factory = .ok b) (hc : connectBags l b = .ok c)
+    (x : String) :
+    x ∈ names c.outputs ↔
+      x ∈ r.layout.outputs ∨
+      (r.fwdVirt.mem x = true ∧ (x ∈ r.layout.inputs ∨ x ∈ names l.outputs)) ∨
+      (x ∈ r.layout.inputs ∧ x ∈ r.persistentNames ∧ x ∉ r.layout.outputs) ∨
+      (x ∈ names l.outputs ∧ x ∈ l.persistent ∧ x ∉ names b.outputs) :=
+  layer_exposes hl hb hc x
+
+/-- the names the container of a single layer exposes and still passes on from upstream -/
+theorem node_factory_names {r : RawLayer} {b : Bag} (h : r.factory = .ok b) :
+    (∀ x, x ∈ names b.outputs ↔ x ∈ r.layout.outputs ∨
+        (x ∈ r.layout.inputs ∧ (r.fwdVirt.mem x = true ∨ x ∈ r.persistentNames) ∧ x ∉ r.layout.outputs)) ∧
+    (∀ x, b.virt.mem x = (r.fwdVirt.mem x &&
+        !(x ∈ r.layout.inputs ∧ (r.fwdVirt.mem x = true ∨ x ∈ r.persistentNames) ∧ x ∉ r.layout.outputs : Bool))) ∧
+    b.persistent = r.persistentNames :=
+  factory_names h
+
+/-- non-vacuity (a test): the example layer defines `x`, inherits `b` and consumes `a`: its container exposes `x` only, passes `b` on -/
+example : (match exLayer.factory with
+    | .ok b => names b.outputs == ["x"] && b.virt.mem "b" && !b.virt.mem "a" && !b.virt.mem "x"
+    | .error _ => false) = true := by decide +kernel
 
 end CM.C02
